@@ -129,6 +129,11 @@ func newPackage(program *loader.Program, pkgInfo *loader.PackageInfo, plugins []
 
 		changed := false
 		calls := append(fileInfo.undefined, fileInfo.derived...)
+		// Register calls in source order, whether or not a previous derived.gen.go already defines them,
+		// so that the order of the generated functions does not depend on the old generated file.
+		sort.SliceStable(calls, func(i, j int) bool {
+			return calls[i].Expr.Pos() < calls[j].Expr.Pos()
+		})
 		for _, call := range calls {
 			// log.Printf("call: %v", call.Name)
 			if vOn {
